@@ -142,6 +142,8 @@ class StubNM(Cacheable):
     merge_cells = _NumbersModel.merge_cells
     calculate_merge_cell_ranges = _NumbersModel.calculate_merge_cell_ranges
     recalculate_merged_cells = _NumbersModel.recalculate_merged_cells
+    number_of_rows = _NumbersModel.number_of_rows            # real accessors: a table model has them
+    number_of_columns = _NumbersModel.number_of_columns
 
     def __init__(self, nrows=0, ncols=0):
         self.table = Rec(number_of_rows=nrows, number_of_columns=ncols,
